@@ -303,9 +303,15 @@ static void process_ldr_str(
 
   if (i == 0)
   {
-    if (offset == 0)
+    if (offset == 0 && pr == 1)
     {
       snprintf(temp, sizeof(temp), "[%s]", arm_reg[rn]);
+    }
+      else
+    if (offset == 0)
+    {
+      // Keep post indexing visible: [rn] alone is the pre indexed form.
+      snprintf(temp, sizeof(temp), "[%s], #0", arm_reg[rn]);
     }
       else
     {
